@@ -22,6 +22,8 @@ var registry = map[string]checkFn{
 	"C01": runC01,
 	"C05": runC05,
 	"C06": runC06,
+	"C08": runC08,
+	"C09": runC09,
 	"C16": runC16,
 	"C19": runC19,
 }
